@@ -68,7 +68,7 @@ P = {
     "theorems_module": "Properties.C19",
     "theorems": ["C19_reload_total", "C19_reload_total_any_fixed", "C19_reload_total_guarded", "C19_reload_exit_iff_guards",
                  "C19_find_chain_terminates", "C19_pinned_exhaustion_is_divergence", "C19_empty_store_iff", "C19_accepted_sizes_have_jwk", "C19_size_tables_agree", "C19_size_ok_exact", "C19_truststore_total", "C19_truststore_panic_iff",
-                 "C19_ruleset_total", "C19_ruleset_total_typed", "C19_ruleset_total_guarded", "C19_F3_only_ill_typed",
+                 "C19_ruleset_total", "C19_ruleset_total_typed", "C19_ruleset_total_guarded", "C19_F3_only_ill_typed", "C19_decode_scopes_panic_iff", "C19_decode_scopes_total_fixed", "C19_F9_refuted",
                  "C19_fs_total", "C19_fs_total_guarded", "C19_fs_exit_iff_guard",
                  "C19_request_panic_is_non_success", "C19_composite_extract_panic_iff",
                  "C19_F1_pinned_refuted", "C19_F2_pinned_refuted", "C19_F3_pinned_refuted", "C19_F4_pinned_refuted",
@@ -131,6 +131,9 @@ P = {
     "trusted": ["byte-level parsers (encoding/pem, crypto/x509, youmark/pkcs8, yaml.v3, mapstructure, validator) are not modelled: their "
                 "answer on the bytes of a case is data of the case (per PEM block: parser result; per rule set: decoded tree or error "
                 "or panic); they are exercised only by the truncation / mutation sweeps",
+                "the rules stream runs the REAL mechanism factory (catalogue with every mechanism type; a rule set carrying every option "
+                "each WithConfig accepts, every node type-confused, every option name injected with values of every kind); in the "
+                "model its answer per step is data (ok / error / panic) - only the scopes-matcher decode hook is modelled itself",
                 "x509 chain verification (ValidateChain, pkix.ValidateCertificate), CEL compilation, the mechanism factory (prototype "
                 "lookup + WithConfig), matcher construction and Rule.Hash are oracles (ok / error / panic per call)",
                 "goroutine attribution: OnChanged runs under `go listener.OnChanged` (watcher_impl.go) and the providers' watch loops "
@@ -153,7 +156,9 @@ P = {
                   "exit site), log level and state.",
     "level_note": "PARTIAL by design: proof of totality of the decision logic after byte parsing + systematic fault enumeration (truncation "
                   "at every offset, type confusion of every node); parsers and crypto are data/oracles (see trusted). Eight findings "
-                  "(C19-F1..F8; F5-F8 found while building this check, F8 by the sweep itself) were repaired by fix: commits; the pinned "
+                  "(C19-F1..F8; F5-F8 found while building this check, F8 by the sweep itself) were repaired by fix: commits; C19-F9 (scopes-matcher "
+                  "decode hook, reported by the coordinator's seeding agent, missed before because no valid base rule set carried a "
+                  "`scopes` override) is open with an exact guard, fixes/C19-F9.diff is the candidate repair; the pinned "
                   "behaviour is documented by the _pinned_refuted theorems, and reverting any of the commits is reported as a VIOLATION "
                   "with the crashing input (F6, a fatal stack overflow, through a child process).",
     "assumptions": ["drivers read private fields of jwtSigner / tlsx.keyStore / HTTPMessageSignatures / repository / Provider (in-package): "
